@@ -104,6 +104,14 @@ def map_case(group, u):
         return ("raises", exp, type(e).__name__)
     if got != exp:
         return ("wrong-point", exp, got)
+    if group == "E2":
+        # the same u carried by FQ-object coefficients (a constructor form the class keeps)
+        try:
+            got = lib.opt_norm(cfg, f(cfg.lib_fq(cfg.F.el(u))))
+        except Exception as e:  # noqa: BLE001
+            return ("raises:fq-coefficients", exp, type(e).__name__)
+        if got != exp:
+            return ("wrong-point:fq-coefficients", exp, got)
     # the SSWU half, when the internal is still there: sgn0(y) == sgn0(u) on the isogenous curve
     opt = importlib.import_module("py_ecc.optimized_bls12_381")
     swu = getattr(opt, "optimized_swu_G1" if group == "E1" else "optimized_swu_G2", None)
@@ -211,7 +219,7 @@ def pipe_case(group, msg, dst, hn):
 
 def _msgs():
     return [b"", b"abc", b"abcdef0123456789", b"q128_" + b"q" * 128, b"a512_" + b"a" * 512, bytes(range(55)),
-            bytes(range(56)), bytes(range(64)), bytes(i & 0xFF for i in range(1024))]
+            bytes(range(56)), bytes(range(64)), bytes(i & 0xFF for i in range(1024)), b"\x5a" * 70001]
 
 
 def _tags():
@@ -221,19 +229,24 @@ def _tags():
 
 
 def task_pipe(a, env):
-    group = a["group"]
-    r = R("hash_to_%s" % ("G1" if group == "E1" else "G2"))
+    """both groups on the same (message, tag, hash), alternating the order G2,G1 / G1,G2 and
+    repeating the first: one process, one call history per case"""
+    r = R("hash_to_G1+hash_to_G2")
     msgs, tags = _msgs(), _tags()
-    for (mi, ti, hn) in a["cases"]:
-        bad = pipe_case(group, msgs[mi], tags[ti], hn)
-        r.ev += 1
-        r.dk.add((mi, ti, hn))
-        if bad:
-            r.viol("C10:%s:hash_to_curve:%s" % ("G1" if group == "E1" else "G2", bad[0]), ME + ":replay_pipe",
-                   {"group": group, "mi": mi, "ti": ti, "h": hn}, bad[1], bad[2])
+    for n, (mi, ti, hn) in enumerate(a["cases"]):
+        order = ("E2", "E1", "E2") if n % 2 == 0 else ("E1", "E2", "E1")
+        if len(msgs[mi]) > 5000 or ti == 9:
+            order = order[:2]
+        for group in order:
+            bad = pipe_case(group, msgs[mi], tags[ti], hn)
+            r.ev += 1
+            r.dk.add((group, mi, ti, hn))
+            if bad:
+                r.viol("C10:%s:hash_to_curve:%s" % ("G1" if group == "E1" else "G2", bad[0]), ME + ":replay_pipe",
+                       {"group": group, "mi": mi, "ti": ti, "h": hn}, bad[1], bad[2])
     if a.get("sample"):
         mi, ti, hn = a["cases"][0]
-        r.sample({"group": group, "msg": msgs[mi][:20].hex(), "dst": tags[ti].decode(), "hash": hn})
+        r.sample({"groups": "G2,G1,G2 / G1,G2,G1", "msg": msgs[mi][:20].hex(), "dst": tags[ti].decode(), "hash": hn})
     return r
 
 
@@ -280,19 +293,18 @@ def run(ctx):
     hashes = ["sha256", "sha512", "sha3_256"]
     nm, nt_ = len(_msgs()), len(_tags())
     cases = [(mi, ti, hn) for hn in hashes for mi in range(nm) for ti in range(nt_)
-             if (hn == "sha256" or (mi in (0, 1, 4) and ti in (0, 1, 7, 9))) and (not q or mi != 8 or ti < 2)]
+             if (hn == "sha256" or (mi in (0, 1, 4) and ti in (0, 1, 7, 9))) and (not q or mi < 8 or ti < 2)]
     if q:
         cases = [c for c in cases if c[1] in (0, 1, 3, 4, 6, 7, 8, 9) or c[0] < 2]
     # the hashes / tags of one message stay in one task (one process, one call history): a result
     # memoised under too coarse a key shows up inside the task
     cases.sort(key=lambda c: (c[0], c[1], c[2]))
-    for group in ("E2", "E1"):
-        n = 16
-        per = -(-len(cases) // n)
-        for i in range(n):
-            ch = cases[i * per:(i + 1) * per]
-            if ch:
-                tasks.append(("pipe", {"group": group, "cases": ch, "sample": i == 0}))
+    n = 32
+    per = -(-len(cases) // n)
+    for i in range(n):
+        ch = cases[i * per:(i + 1) * per]
+        if ch:
+            tasks.append(("pipe", {"cases": ch, "sample": i == 0}))
     ctx.bounds = {"map_to_curve": plan, "pipeline_cases_per_group": len(cases), "hashes": hashes}
     ctx.pmap(ME, tasks)
     # branch-coverage requirement is part of the evidence, not a verdict on the code
